@@ -414,6 +414,25 @@ func TestC07(t *testing.T) {
 		w.Add(term, map[string]any{"class": class, "what": run.Note}, class, true)
 		w.Count("class", class)
 	}
+	// random scripts over the slow underlying store (every Store.Append parked, then released or failed): real time
+	nSlow, slowActs := 10, 16
+	if emit.Thorough() {
+		nSlow, slowActs = 60, 24
+	}
+	slowRuns, slowStats, err := syncfx.RunSlowScripts(emit.Seed()+77, nSlow, slowActs)
+	if err != nil {
+		t.Fatalf("slow-store scripts: %v", err)
+	}
+	for k, v := range slowStats {
+		for i := 0; i < v; i++ {
+			w.Count("slow_store_action", k)
+		}
+	}
+	for _, run := range slowRuns {
+		term := fmt.Sprintf("Case07 %s %d %s %s %s %s %s", emit.Z(run.Drift), run.Tail, run.Init, run.Chain, emit.List(run.Acts), emit.B(run.Wait), emit.List(run.Probe))
+		w.Add(term, map[string]any{"class": "random/slow_store", "what": run.Note}, "random/slow_store", len(run.Acts) >= 4)
+		w.Count("class", "random/slow_store")
+	}
 	for _, sc := range scs {
 		runScenario(t, w, sc, rng)
 	}
